@@ -1,0 +1,76 @@
+//! Verification failpoints (compiled only with `--cfg delaunay_verif`).
+//!
+//! A failpoint is a named site placed immediately after a step of a mutating operation. When the
+//! conformance harness arms a name, the n-th time execution reaches that site the operation takes
+//! the error return the site stands for (an error variant the operation can really produce), so the
+//! harness can check that a failure raised at that point leaves the triangulation unchanged.
+//! Nothing is armed unless the harness does it; the state is thread-local.
+
+#![forbid(unsafe_code)]
+
+use std::cell::RefCell;
+
+struct State {
+    armed: Option<(String, usize)>,
+    log: Option<Vec<&'static str>>,
+    fired: bool,
+}
+
+thread_local! {
+    static STATE: RefCell<State> = const { RefCell::new(State { armed: None, log: None, fired: false }) };
+}
+
+/// Arm `name`: its `nth` hit (1-based) fires once.
+pub fn arm(name: &str, nth: usize) {
+    STATE.with(|s| {
+        let mut s = s.borrow_mut();
+        s.armed = Some((name.to_string(), nth.max(1)));
+        s.fired = false;
+    });
+}
+
+/// Disarm; returns whether the armed failpoint fired.
+pub fn disarm() -> bool {
+    STATE.with(|s| {
+        let mut s = s.borrow_mut();
+        s.armed = None;
+        std::mem::take(&mut s.fired)
+    })
+}
+
+/// Start recording the names of all sites reached (discovery run).
+pub fn start_log() {
+    STATE.with(|s| s.borrow_mut().log = Some(Vec::new()));
+}
+
+/// Stop recording and return the sites reached, in order.
+#[must_use]
+pub fn take_log() -> Vec<&'static str> {
+    STATE.with(|s| s.borrow_mut().log.take().unwrap_or_default())
+}
+
+/// Called at a site: true exactly when the armed failpoint fires here.
+pub(crate) fn hit(name: &'static str) -> bool {
+    STATE.with(|s| {
+        let mut s = s.borrow_mut();
+        if let Some(log) = s.log.as_mut() {
+            log.push(name);
+        }
+        let fire = match s.armed.as_mut() {
+            Some((n, k)) if n == name => {
+                if *k <= 1 {
+                    true
+                } else {
+                    *k -= 1;
+                    false
+                }
+            }
+            _ => false,
+        };
+        if fire {
+            s.armed = None;
+            s.fired = true;
+        }
+        fire
+    })
+}
